@@ -48,7 +48,7 @@ Ltac w0 E := first
   | (apply (insert_global_hs S) in E; [|assumption|apply get_found; assumption])
   | (apply instr_assemble_hs in E; apply wk in E) | (apply write_instr_hs in E; apply wk in E)
   | (apply data_apply_hs in E; apply wk in E) | (apply arity_check_hs in E; apply wk in E) ].
-Ltac s_finish := hs_unfold; eauto 8 using HF_refl, HF_trans.
+Ltac s_finish := hs_unfold; eauto 5 using HF_refl, HF_trans.
 
 Lemma dir_global_hs st l c d args r st' : dir_global st l c d args = Ret r st' ->
   (forall x, args = [AIdent x] -> d = DGlobal \/ d = DExport -> S x) -> Hs S st st'.
